@@ -14,6 +14,7 @@ EXPLANATION = (
     "current or becomes the new current after the old one was pushed to result; current is pushed after the loop and "
     "self.centroids = result — no centroid is dropped on any path. R16-reads: count/sum sum the respective field over centroids "
     "(after R15-merge-before-read), mean = sum/count, min/max return the fields, is_empty == centroids.is_empty() && backlog.is_empty()."
+    " insert_weighted also counts n_samples by exactly one. C19's clear rules are applied to TDigest/TDigestInner."
 )
 NOT_DECIDED = "floating-point accumulation accuracy"
 ASSUMPTIONS = ["sort_by permutes its slice", "Vec::drain(range) yields exactly the elements of the range", "collect gathers every item"]
